@@ -36,7 +36,7 @@ import (
 //   "race": free-running -race complement (not the deciding step).
 
 // the operations of the statement
-var c14Ops = []string{"Parse", "ParseDF", "ToPostgres", "ToParam", "Render", "RenderParam", "String", "GoString", "Marshal", "Unmarshal", "Validate", "Customise"}
+var c14Ops = []string{"Parse", "ParseDF", "ToPostgres", "ToParam", "Render", "RenderParam", "String", "GoString", "Marshal", "Unmarshal", "Validate", "Customise", "ParseDF2"}
 
 // corpus: every operator and every renderer branch occurs
 var c14Corpus = []string{
@@ -105,22 +105,43 @@ func sharedExpr(q string) *expr.Expression {
 // iteration order (NewPostgresDriver ranges over driver.Shared) on the explored paths.
 var c14Driver = driver.NewPostgresDriver()
 
+// c14KeepOn (call sequences only, single-threaded): runOp leaves in c14Keep a view of the value it
+// returned (the expression, the parameter slice, the encoded bytes) so that the sequence can look
+// at it again after later calls: a result is a value and must not change once returned.
+var (
+	c14KeepOn bool
+	c14Keep   func() string
+)
+
 // runOp performs one operation and returns a printable result (panics included).
 func runOp(op, q string, shared *expr.Expression) (out string) {
+	keep := func(f func() string) {
+		if c14KeepOn {
+			c14Keep = f
+		}
+	}
 	pi := core.Safe(func() {
 		switch op {
 		case "Parse":
 			e, err := lucene.Parse(q)
 			out = fmt.Sprintf("%#v | %v", e, err)
+			keep(func() string { return fmt.Sprintf("%#v | %v", e, err) })
 		case "ParseDF":
 			e, err := lucene.Parse(q, lucene.WithDefaultField("D"))
 			out = fmt.Sprintf("%#v | %v", e, err)
+			keep(func() string { return fmt.Sprintf("%#v | %v", e, err) })
+		case "ParseDF2":
+			// the same option with another value: state keyed by the option must not leak between calls
+			e, err := lucene.Parse(q, lucene.WithDefaultField("E"))
+			out = fmt.Sprintf("%#v | %v", e, err)
+			keep(func() string { return fmt.Sprintf("%#v | %v", e, err) })
 		case "ToPostgres":
 			s, err := lucene.ToPostgres(q)
 			out = fmt.Sprintf("%q | %v", s, err)
 		case "ToParam":
 			s, p, err := lucene.ToParameterizedPostgres(q)
 			out = fmt.Sprintf("%q | %#v | %v", s, p, err)
+			keep(func() string { return fmt.Sprintf("%q | %#v | %v", s, p, err) })
 		case "Render":
 			if shared == nil {
 				out = "n/a"
@@ -135,6 +156,7 @@ func runOp(op, q string, shared *expr.Expression) (out string) {
 			}
 			s, p, err := c14Driver.RenderParam(shared)
 			out = fmt.Sprintf("%q | %#v | %v", s, p, err)
+			keep(func() string { return fmt.Sprintf("%q | %#v | %v", s, p, err) })
 		case "String":
 			if shared == nil {
 				out = "n/a"
@@ -154,6 +176,12 @@ func runOp(op, q string, shared *expr.Expression) (out string) {
 			}
 			b, err := json.Marshal(shared)
 			out = fmt.Sprintf("%s | %v", b, err)
+			if c14KeepOn {
+				// the method called directly, as a user holding the bytes would
+				if raw, rerr := shared.MarshalJSON(); rerr == nil {
+					keep(func() string { return string(raw) })
+				}
+			}
 		case "Unmarshal":
 			if shared == nil {
 				out = "n/a"
@@ -303,7 +331,7 @@ func init() {
 			}
 			// scheduler. unit = explore|<bound>|<granularity>|<query>|<shard>|<of>|<ops...>
 			pairs := func(f func(a, b string)) {
-				// "Customise" takes part in the call sequences only
+				// "Customise" and "ParseDF2" take part in the call sequences and in dedicated scenarios only
 				for _, a := range c14Ops[:11] {
 					for _, b := range c14Ops[:11] {
 						f(a, b)
@@ -333,6 +361,12 @@ func init() {
 				for _, b := range []string{"ToPostgres", "ToParam", "Render", "RenderParam", "Marshal"} {
 					us = append(us, core.Unit{Name: fmt.Sprintf("explore|1|full|0|0|1|%s@3|%s@4", a, b), Weight: 3})
 				}
+			}
+			// the same option with two different values on the two threads (same and different inputs)
+			for _, o := range [][]string{{"ParseDF", "ParseDF2"}, {"ParseDF2", "ParseDF"}, {"ParseDF2", "ParseDF2"}, {"ParseDF2", "Parse"}} {
+				unit(1, "full", 0, 1, 3, o...)
+				unit(2, "mixed", 2, 1, 4, o...)
+				us = append(us, core.Unit{Name: fmt.Sprintf("explore|1|full|0|0|1|%s@0|%s@1", o[0], o[1]), Weight: 3})
 			}
 			trip := [][]string{{"ToPostgres", "ToParam", "Parse"}, {"Render", "RenderParam", "String"}, {"Marshal", "Unmarshal", "Validate"}}
 			if tier != "thorough" {
@@ -433,10 +467,34 @@ func c14Eval(c core.Case) (res core.Result) {
 			i, _ := strconv.Atoi(s)
 			idx = append(idx, i)
 		}
+		type kept struct {
+			k    int
+			op   string
+			view func() string
+			was  string
+		}
+		var keeps []kept
+		c14KeepOn = true
+		defer func() { c14KeepOn, c14Keep = false, nil }()
 		for k, i := range idx {
 			oi := table[i]
 			sh := sharedExpr(oi.Query)
+			c14Keep = nil
 			got := runOp(oi.Op, oi.Query, sh)
+			if c14Keep != nil {
+				keeps = append(keeps, kept{k, oi.Op, c14Keep, c14Keep()})
+			}
+			for _, kp := range keeps {
+				if kp.k == k {
+					continue
+				}
+				if now := kp.view(); now != kp.was {
+					add("pure", "result-changed-after-return "+kp.op,
+						fmt.Sprintf("the value returned by call %d (%s) read %s; after call %d (%s %q) it reads %s", kp.k+1, kp.op, trunc(kp.was, 300), k+1, oi.Op, oi.Query, trunc(now, 300)),
+						"a returned value does not change")
+					return
+				}
+			}
 			if got != refs[i] {
 				add("pure", fmt.Sprintf("result-depends-on-history %s", oi.Op),
 					fmt.Sprintf("call %d (%s %q) after %v returned %s", k+1, oi.Op, oi.Query, idx[:k], trunc(got, 300)),
